@@ -461,6 +461,10 @@ class Folder(FileSystemItemABC):
             self.restore_countdown = self.restore_duration
             self.health_status = FileSystemItemHealthStatus.RESTORING
             self.sys_log.info(f"Restoring folder: {self.name} (id: {self.uuid})")
+            if self.restore_duration <= 0:
+                # nothing to wait for: the countdown logic only fires when it reaches 0 from above, so complete now
+                self.restore_countdown = 1
+                self._restoring_timestep()
         else:
             # scan already in progress
             self.sys_log.info(f"Folder restoration already in progress {self.name} (id: {self.uuid})")
